@@ -27,6 +27,7 @@ fn main() {
     install_quiet_panic_hook();
     let args: Vec<String> = std::env::args().collect();
     match args.get(1).map(|s| s.as_str()) {
+        Some("sizes") => print_sizes(),
         Some("xdec") => cmd_xdec(&args),
         Some("check") => {
             let r = std::panic::catch_unwind(|| cmd_check(&args));
@@ -389,6 +390,11 @@ fn run_check(prop: &str, tier: Tier) -> CheckOut {
                 stats.merge(&s);
                 vios.merge(v);
             }
+            if prop == "C10" && only != "x" {
+                let (s, v) = sweep::c10::run();
+                stats.merge(&s);
+                vios.merge(v);
+            }
             if prop == "C03" && only != "x" {
                 let (s, v) = sweep::c03::run(tier);
                 stats.merge(&s);
@@ -512,4 +518,9 @@ fn cmd_xdec(args: &[String]) {
     for v in out.vios.list.iter().take(6) {
         println!("  - {} {}: {}\n    {}", v.prop, v.kind, v.msg, v.replay.render().replace('\n', " "));
     }
+}
+
+#[allow(dead_code)]
+pub fn print_sizes() {
+    println!("Decoder {} Encoder {} RefStream {} Key {} EKey {} Call {}", std::mem::size_of::<encoding_rs::Decoder>(), std::mem::size_of::<encoding_rs::Encoder>(), std::mem::size_of::<spec::dec::RefStream>(), std::mem::size_of::<xdec::Key>(), std::mem::size_of::<xenc::EKey>(), std::mem::size_of::<drive::Call>());
 }
